@@ -9,8 +9,14 @@ CLAIMED = {
  "C08": dict(text="Constant folding: Coq theorem C08_fold_correct proves, for all 18 operators and all 2^64 i32 operand pairs, that the model of "
                   "MathOp::operate equals an independently written RV32IM specification (FoldSpec) and stays in range. The model is tied to "
                   "cfg/ops.rs by differential execution (debug and release builds) on a boundary grid squared plus random pairs; the same run "
-                  "judges the implementation's results against the extracted specification, so a wrong fold is reported with the operand pair. Decoding: every mnemonic x operand form of the manual is parsed by code and model and its "
-                  "architectural effect judged; the control transfer of every jump and branch form (any link register) is read off the graph's successor edges.",
+                  "judges the implementation's results against the extracted specification, so a wrong fold is reported with the operand pair. Decoding: C08_decode_tables proves "
+                  "that every base mnemonic of the manual's table is recognised in any letter case and carries the manual's operation, width and signedness; Props/C08sem.v proves the SEMANTICS of "
+                  "pseudo-expansion on the ISA machine of Spec/Rv32.v: for mv, neg, not, seqz, snez, sltz, sgtz, li and nop the node the parser builds from the tokens has, on every machine state, "
+                  "exactly the effect the assembly manual describes (Spec/PseudoSpec.v, written from the manual: e.g. seqz rd, rs writes 1 iff rs = 0 - an expansion to a SIGNED compare is refuted "
+                  "by a computed example), and for beqz, bnez, bltz, bgez, bgtz, blez, bgt, ble, bgtu, bleu the built branch node's ISA condition (PcSpec.branch_holds) equals the manual's condition "
+                  "on the named operands (signed, resp. unsigned for bgtu/bleu), with the written label as target and no effect on the state. Besides, every mnemonic x operand form of the manual is parsed by code and model and its "
+                  "architectural effect judged, the registers each line READS are observed through liveness and judged against the manual (every register whose value changes the line's effect; exactly rs1 for CSR forms), and "
+                  "the control transfer of every jump and branch form (any link register) is read off the graph's successor edges.",
              design="8/C08", note=NOTE + "Modelled: Rust i32/i64/u64 arithmetic as Z with explicit wrap.",
              technique="Coq proof over a Gallina model + differential correspondence against the Rust code"),
  "C17": dict(text="Literals: Coq theorem C17_imm_exact proves for every string over the lexer's symbol alphabet that the model of Imm::from_str "
